@@ -34,11 +34,14 @@ def sortNames (l : List String) : List String :=
 def verOf (w : List Res) (n : String) : Nat := (get w n).getD 0
 
 /-- The world-based plain generator. -/
-def worldGen (world : World) (t : Ty) (wn : List String) : GenOut :=
+def worldGen (world : World) (t : Ty) (wn : List String) (nilFound : Bool := false) : GenOut :=
   match genClass t with
   | .wild => { res := world t }
   | .named => { res := (sortNames wn).map (fun n => (n, verOf (world t) n)) }
-  | .found => { res := (sortNames wn).filterMap (fun n => (get (world t) n).map (fun v => (n, v))) }
+  | .found =>
+    -- `nilFound`: a found-only generator with nothing to say returns nil (nothing is sent), not an empty list
+    let res := (sortNames wn).filterMap (fun n => (get (world t) n).map (fun v => (n, v)))
+    { res := res, resNil := nilFound && res.isEmpty }
 
 /-- The delta-aware CDS generator on a non-forced push: `changed` = names touched since the last push. -/
 def deltaCdsGen (world : World) (changed : List String) (wn : List String) : GenOut :=
@@ -64,6 +67,7 @@ structure Sys where
   pending : World := fun _ => []       -- latest state, published to `world` by the next push
   changed : Ty → List String := fun _ => []
   deltaCds : Bool := false
+  nilFound : Bool := false
   ssrv : Srv := {}
   dsrv : Srv := {}
   sc : Client := fun _ => {}
@@ -74,10 +78,10 @@ structure Sys where
   dlog : List (Ty × Nat × Nat) := []
 
 /-- Generator seen by request handling (forced) and by SotW pushes. -/
-def Sys.genReq (y : Sys) : Gen := worldGen y.world
+def Sys.genReq (y : Sys) : Gen := fun t wn => worldGen y.world t wn y.nilFound
 /-- Generator seen by a non-forced delta push. -/
 def Sys.genPushDelta (y : Sys) : Gen := fun t wn =>
-  if y.deltaCds && t = .cds then deltaCdsGen y.world (y.changed .cds) wn else worldGen y.world t wn
+  if y.deltaCds && t = .cds then deltaCdsGen y.world (y.changed .cds) wn else worldGen y.world t wn y.nilFound
 
 def upsert (h : Held) (res : List Res) : Held := res ++ h.filter (fun x => !(names res).contains x.1)
 
